@@ -271,6 +271,21 @@ def rule_r2(prog, res) -> None:
         if ".dat" not in writes or ".smp" not in writes:
             raise AnalysisError("C08.R2: result writer does not write .dat/.smp through with_suffix (idiom not recognised)")
         dat, smp = writes[".dat"], writes[".smp"]
+        # mutual validation: when one of the files from_files() needs is rewritten, the other one must already be
+        # new (written earlier in this call) or gone
+        for x_suf, y_suf in ((".smp", ".dat"), (".dat", ".smp")):
+            wx, wy = writes[x_suf], writes[y_suf]
+            ok_nodes = list(unlinks.get(y_suf, [])) + [wy]
+            r_ = cfg.reach([cfg.entry], avoid=lambda n_, ok_nodes=ok_nodes: n_ in ok_nodes)
+            if x_suf == ".smp" and wx.id in r_ and not any(h_ for h_ in cfg.nodes if h_.kind == "for" and isinstance(h_.expr, (ast.Tuple, ast.List)) and any(isinstance(e_, ast.Constant) and e_.value == y_suf for e_ in h_.expr.elts)):
+                res.violation(
+                    "C08.R2",
+                    fi,
+                    wx.ast,
+                    f"'{x_suf}' is rewritten while the '{y_suf}' file of an earlier product is neither removed nor already rewritten: a crash before '{y_suf}' is written leaves a pair "
+                    "that from_files() loads without error although its two files belong to different products",
+                    key_extra=f"{x_suf[1:]}-rewritten-beside-stale-{y_suf[1:]}",
+                )
         # the samples file is the guarded content: it must be invalidated before the header file is rewritten
         inval = list(unlinks.get(".smp", []))
         for h in cfg.nodes:
